@@ -353,7 +353,8 @@ pub fn gen_trace(g: &mut Gen, max_packets: usize) -> Vec<(u64, bool)> {
     let n = 1 + g.usize(max_packets);
     let mut t: u64 = if g.chance(0.7) { 0 } else { g.below(5_000_000) };
     let p_sent = *g.pick(&[0.1, 0.5, 0.5, 0.9, 1.0, 0.0]);
-    let style = g.below(5);
+    let style = g.below(7);
+    let period = *g.pick(&[20_000_000u64, 60_000_000, 110_000_000, 250_000_000]);
     let mut v = vec![];
     for _ in 0..n {
         v.push((t, g.chance(p_sent)));
@@ -362,6 +363,9 @@ pub fn gen_trace(g: &mut Gen, max_packets: usize) -> Vec<(u64, bool)> {
             1 => *g.pick(&[0, 0, 1, 1000, 1_000_000]),
             2 => g.below(50_000_000),
             3 => *g.pick(&[0, 1, 1_000, 1_000_000, 1_000_000_000, 20_000_000]),
+            // sustained, regular traffic (over many seconds when the trace is long)
+            5 => period,
+            6 => period / 2 + g.below(period),
             _ => {
                 if g.chance(0.8) {
                     g.below(2_000_000)
